@@ -173,8 +173,8 @@ CHECKS = {
              "view x value; the state graph to depth 2 (full alphabet) and depth 3 (channel alphabet, sampled in quick) is executed "
              "on the real cell: after every call every public table, get_all_parameters/get_all_states and (where recordings "
              "exist) integrate's output must equal the specification's successor state / integer observation.",
-        note="Trusted: TLC; probe channels make the dynamics integer exact; one irregular cell, 7 views. Known findings F18-F20 "
-             "are listed in known_findings.json."),
+        note="Trusted: TLC; probe channels make the dynamics integer exact; one irregular cell, 7 views. Known finding F20 "
+             "is listed in known_findings.json."),
     "C10": dict(
         technique="same TLA+ module specification restricted to the parameter alphabet (insert/set/make_trainable/"
                   "delete_trainables/write_trainables/record) to depth 3; replay with Eff(k) compare and metamorphic "
